@@ -1,7 +1,7 @@
 (* wire glue for engine 107 (row codec, property C07) *)
 (* WIRE engine=107 fn=dispatch_c07 *)
 From Coq Require Import List NArith Bool.
-From RPFT Require Import Base.Sexp Base.PyStr Base.Result Gen.Tables Cell.Cell Row.Ty Row.Layout Row.RowParse Row.RowUnparse Row.FlowRow Row.RoundTrip Row.CtxRoundTripFacts Row.FlowRowFacts.
+From RPFT Require Import Base.Sexp Base.PyStr Base.Result Gen.Tables Cell.Cell Row.Ty Row.Layout Row.RowParse Row.RowUnparse Row.FlowRow Row.RoundTrip Row.CtxRoundTripFacts Row.FlowRowFacts Io.XlsxCell.
 Import ListNotations.
 Local Open Scope N_scope.
 
@@ -49,6 +49,12 @@ Definition dispatch_c07 (fn : N) (args : list sexp) : sexp :=
   | 7, [v] =>
     match dec_value 64 v with
     | Some v' => enc_bool (flow_dom v')
+    | None => s_badinput
+    end
+  (* 8: one cell text through RowDataSheet.export(xlsx) + XLSXSheetReader *)
+  | 8, [t] =>
+    match dec_str t with
+    | Some t' => enc_str (xlsx_cell_roundtrip t')
     | None => s_badinput
     end
   | _, _ => s_badinput
